@@ -5,7 +5,7 @@ RUNTIME_CORE = ["sends", "recvs", "closes", "makechans", "gostmts", "ctxchecks",
 
 # the bodies of the functions that the renderer model / the input model mirror statement by statement
 RENDER_BODIES = ["body_standardRenderer_render", "body_standardRenderer_flush", "body_standardRenderer_write", "body_standardRenderer_repaint", "body_standardRenderer_handleMessages", "body_standardRenderer_stop", "body_standardRenderer_kill", "body_standardRenderer_clearScreen", "body_standardRenderer_enterAltScreen", "body_standardRenderer_exitAltScreen"]
-INPUT_BODIES = ["body_readAnsiInputs", "body_detectOneMsg", "body_detectSequence", "body_detectBracketedPaste", "body_detectReportFocus", "body_isIncompleteEvent"]
+INPUT_BODIES = ["regexps", "body_readAnsiInputs", "body_detectOneMsg", "body_detectSequence", "body_detectBracketedPaste", "body_detectReportFocus", "body_isIncompleteEvent"]
 MOUSE_BODIES = ["body_parseSGRMouseEvent", "body_parseX10MouseEvent", "body_parseMouseButton"]
 
 FACTMAP = {
@@ -24,7 +24,8 @@ FACTMAP = {
             "order_Program_disableMouse", "order_Program_recoverFromPanic", "calls",
             "body_Program_initInput", "body_Program_restoreInput"],   # the termios model (Tea/Render/Tty.lean)
     "C07": ["order_Program_Run", "order_Program_shutdown", "order_standardRenderer_stop", "calls", "locks", "body_standardRenderer_halt"] + RENDER_BODIES,
-    "C12": ["order_Program_Run", "order_Program_disableMouse", "el_case_enterAltScreenMsg", "el_case_exitAltScreenMsg",
+    "C12": ["locks",   # every mode method: lock, write its sequence, unlock - nothing else, nothing conditional
+            "order_Program_Run", "order_Program_disableMouse", "el_case_enterAltScreenMsg", "el_case_exitAltScreenMsg",
             "el_case_enableMouseCellMotionMsg_enableMouseAllMotionMsg", "el_case_disableMouseMsg", "el_case_showCursorMsg",
             "el_case_hideCursorMsg", "el_case_enableBracketedPasteMsg", "el_case_disableBracketedPasteMsg",
             "el_case_enableReportFocusMsg", "el_case_disableReportFocusMsg", "el_case_clearScreenMsg"],
